@@ -27,9 +27,13 @@ def observe(feats, cfg, dbfn=":memory:"):
     import gffutils
     from gffutils.exceptions import FeatureNotFoundError
     objs = [G.real_feature(f) for f in feats]
+    kw = G.real_kwargs(cfg)
+    if cfg.get("importer") == "gtf":
+        from .c05 import GTF_DIALECT
+        kw["dialect"] = dict(GTF_DIALECT)
     try:
         with dbio.quiet():
-            db = gffutils.create_db(objs, dbfn, **G.real_kwargs(cfg))
+            db = gffutils.create_db(objs, dbfn, **kw)
     except Exception as e:  # noqa
         return type(e).__name__, None, []
     snap = dbio.proj_db(db.conn)
@@ -115,6 +119,27 @@ def random_hist(rng, n):
                                 seqid=rng.choice(["chr1", "chr2"]), strand=rng.choice(["+", "-", "."])))
         cfg = dict(G.DEFAULT_CFG, idspec=rng.choice(specs), strategy="create_unique")
         hist.append({"init": {"feats": feats, "cfg": cfg, "dirs": []}, "steps": [], "rel": False})
+    return hist
+
+
+def gtf_spec_hist(rng, n):
+    """GTF imports (explicit gene / transcript lines, inference off) under a caller's dict id_spec that names only SOME featuretypes:
+    a featuretype without an entry is keyed '<featuretype>_<n>' - the importer's own defaults do not come back"""
+    hist = []
+    for _ in range(n):
+        feats = []
+        for g in range(rng.randint(1, 2)):
+            gid, tid = "g%d" % g, "t%d" % g
+            feats.append(G.feat("gene", 1, 90, [("gene_id", [gid])]))
+            feats.append(G.feat("transcript", 1, 90, [("gene_id", [gid]), ("transcript_id", [tid])]))
+            for e in range(rng.randint(1, 3)):
+                attrs = [("gene_id", [gid]), ("transcript_id", [tid])] + ([("exon_id", ["E%d_%d" % (g, e)])] if rng.random() < 0.8 else [])
+                feats.append(G.feat(rng.choice(["exon", "exon", "CDS"]), 10 * e + 1, 10 * e + 5, attrs))
+        spec = rng.choice([{"kind": "dict", "map": [[enc("exon"), [{"t": "attr", "k": enc("exon_id")}]]]},
+                           {"kind": "dict", "map": [[enc("exon"), [{"t": "attr", "k": enc("exon_id")}]], [enc("gene"), [{"t": "attr", "k": enc("gene_id")}]]]},
+                           {"kind": "list", "items": [{"t": "attr", "k": enc("exon_id")}]}])
+        cfg = dict(G.DEFAULT_CFG, idspec=spec, strategy="create_unique", importer="gtf", noT=True, noG=True)
+        hist.append({"init": {"feats": feats, "cfg": cfg, "dirs": [], "gtf": True}, "steps": [], "rel": False})
     return hist
 
 
@@ -250,7 +275,7 @@ def run(ctx):
     ctx.traces += len(cases)
     ctx.sample({"lines": [dec(t) for t in cases[0]["texts"]], "id_spec": cases[0]["cfg"]["idspec"],
                 "expected_keys": [dec(f["id"]) for f in cases[0]["snap"]["db"]["feats"]], "expected_status": cases[0]["snap"]["st"]})
-    hist = random_hist(ctx.rng, 3000 if thorough else 400)
+    hist = random_hist(ctx.rng, 3000 if thorough else 400) + gtf_spec_hist(ctx.rng, 300 if thorough else 60)
     exp = G.model(ctx, hist, label="random feature lists x id specs")
     for h, e in zip(hist, exp):
         raised, snap, fails = observe(h["init"]["feats"], h["init"]["cfg"], dbfn=ctx.path("c04.db") if ctx.rng.random() < 0.1 else ":memory:")
